@@ -83,4 +83,4 @@ META = dict(
     technique="runtime monitoring: generator-derived expected fields + reference codec/splitter + canaries + ASan/UBSan",
 )
 
-CFG["rule"] += (" " + 'Additions: one random URI in eight has a scheme of 20-300 characters; stage asan_latin1 repeats all cases under a single-byte libc locale; stages mt_tsan/mt_rel; stale aws_last_error()/errno.')
+CFG["rule"] += (" " + 'Additions: one random URI in eight has a scheme of 20-300 characters; stage asan_latin1 repeats all cases under a single-byte libc locale; stages mt_tsan/mt_rel; stale aws_last_error()/errno. After the query iterator reported the end it is called once or twice more with the same in/out argument and must keep reporting the end.')
